@@ -264,7 +264,7 @@ def run(ctx: Any) -> None:
         "model arm and message class, the rest is seeded random; distinct by (transport, cfg, items); non-trivial = at least one request was dispatched"
     )
     histories: list[tuple[str, list[Any]]] = scenario_items()
-    n_rand = 30 if ctx.tier == "quick" else 400
+    n_rand = 30 if ctx.tier == "quick" else 160
     for _ in range(n_rand):
         fam = ctx.rng.choice(["http", "http", "pipe"])
         histories.append((fam, [gen_item(ctx.rng, fam, False) for _ in range(ctx.rng.randrange(1, 4))]))
